@@ -353,6 +353,10 @@ func cmdCheck(args []string) {
 			liveFiles = append(liveFiles, f)
 		}
 	}
+	if id == "C12" {
+		cmdCheckC12(cfg, hcfgs, prog, pkg, liveFiles, *tier, seed, *workers, t0, inconclusive)
+		return
+	}
 	rp := startReplayBuild(pkg, liveFiles, id+"_"+*tier)
 
 	openKF := map[string]KnownFinding{}
@@ -747,5 +751,255 @@ func cmdReplay(args []string) {
 	if nr.Status == "assert" || nr.Status == "panic" || nr.Status == "timeout" {
 		fmt.Println("REPRODUCED")
 		os.Exit(1)
+	}
+}
+
+func cmdCheckC12(cfg *PropCfg, hcfgs []HarnessCfg, prog *ssa.Program, pkg *ssa.Package, liveFiles []string, tier string, seed, workers int, t0 time.Time, inconclusive func(string, ...interface{})) {
+	id := "C12"
+	kfs := map[string]KnownFinding{}
+	for _, kf := range loadKnownFindings() {
+		if kf.State == "open" && kf.Property == id {
+			kfs[kf.Tag] = kf
+		}
+	}
+	type buildRes struct {
+		bin string
+		err error
+	}
+	bc := make(chan buildRes, 1)
+	go func() {
+		b, err := buildRaceBinary(pkg, liveFiles)
+		bc <- buildRes{b, err}
+	}()
+	methods := map[int]*c12Method{}
+	var problems []string
+	var reports []harnessReport
+	states, trans := 0, 0
+	var samples []interface{}
+	funcs := map[string]int{}
+	for _, hc := range hcfgs {
+		mi := hc.Params["method"]
+		ex := &Explorer{prog: prog, pkg: pkg, harness: hc.Name, params: hc.Params, workers: workers, solver: "z3",
+			timeoutMs: 60000, unwind: 200, maxSteps: 2_000_000_000, witnessN: 1, keepTracks: true, seed: seed}
+		if hc.Unwind > 0 {
+			ex.unwind = hc.Unwind
+		}
+		st := ex.Run()
+		m := methods[mi]
+		if m == nil {
+			m = &c12Method{Index: mi, Accesses: map[c12Access]bool{}, WriteHeld: map[string]bool{}, Params: hc.Params}
+			methods[mi] = m
+		}
+		for _, t := range st.Tracks {
+			m.Name = t.name
+		}
+		summarizeTracks(m, st.Tracks)
+		if len(st.Witnesses) > 0 && m.Vector == nil {
+			m.Vector = st.Witnesses[0].Vector
+			m.Params = st.Witnesses[0].Params
+		}
+		rep := harnessReport{Name: fmt.Sprintf("%s[method=%d %s]", hc.Name, mi, m.Name), Params: hc.Params, Solver: "z3", Paths: st.Paths, Done: st.Done,
+			Forks: st.Forks, Pruned: st.Pruned, Asserts: st.Asserts, Folded: st.Folded, AssertQueries: st.AssertQueries, PanicPaths: st.PanicPaths,
+			ErrorPaths: st.ErrorPaths, Queries: st.Solver.ByKind, SolverS: st.Solver.Time.Seconds(), WallS: st.Wall.Seconds(), Steps: st.Steps, Reached: st.Reached, Unwind: ex.unwind}
+		reports = append(reports, rep)
+		states += st.Done
+		trans += st.Forks
+		for f, c := range st.Funcs {
+			funcs[f] += c
+		}
+		for _, e := range st.Errors {
+			problems = append(problems, hc.Name+": "+e)
+		}
+		if st.Done == 0 {
+			problems = append(problems, fmt.Sprintf("%s method %d: no path completed", hc.Name, mi))
+		}
+		for _, v := range st.Violations {
+			if v.Kind == "panic" || v.Kind == "unwind" {
+				problems = append(problems, fmt.Sprintf("method %d: %s %s on the sequential path (not a C12 subject; see C04/C13)", mi, v.Kind, truncate(v.ID, 120)))
+			}
+		}
+	}
+	var idxs []int
+	for i := range methods {
+		idxs = append(idxs, i)
+	}
+	sort.Ints(idxs)
+	// step 2: schedule queries
+	z, err := NewSolver("z3", 20000)
+	if err != nil {
+		inconclusive("cannot start z3: %v", err)
+	}
+	defer z.Close()
+	z.send("(declare-const acqA Int)(declare-const relA Int)(declare-const ta Int)(declare-const acqB Int)(declare-const relB Int)(declare-const tb Int)\n")
+	queries := 0
+	var solverTime time.Duration
+	var findings []c12Finding
+	for _, i := range idxs {
+		for _, v := range methods[i].Intra {
+			findings = append(findings, c12Finding{Kind: "discipline", A: i, B: 0, Detail: methods[i].Name + ": " + v})
+		}
+	}
+	pairs := 0
+	for _, i := range idxs {
+		for _, j := range idxs {
+			pairs++
+			findings = append(findings, c12Pairs(z, methods[i], methods[j], &queries, &solverTime)...)
+		}
+	}
+	// one representative finding per (kind, A, B)
+	rep := map[string]c12Finding{}
+	var repKeys []string
+	for _, f := range findings {
+		k := fmt.Sprintf("%s|%d|%d", f.Kind, f.A, f.B)
+		if f.Kind != "discipline" && f.A > f.B {
+			k = fmt.Sprintf("%s|%d|%d", f.Kind, f.B, f.A)
+		}
+		if _, ok := rep[k]; !ok {
+			rep[k] = f
+			repKeys = append(repKeys, k)
+		}
+	}
+	sort.Strings(repKeys)
+	// step 3: native replay under the race detector
+	br := <-bc
+	if br.err != nil && len(repKeys) > 0 {
+		problems = append(problems, br.err.Error())
+	}
+	nViol := 0
+	var vioLines, kfLines []string
+	validated := 0
+	kfSeen := map[string]bool{}
+	for _, k := range repKeys {
+		f := rep[k]
+		if br.err != nil {
+			break
+		}
+		a, b := f.A, f.B
+		if f.Kind == "discipline" {
+			b = 0 // pair the offending method with Modify
+		}
+		ma := methods[a]
+		if ma == nil || ma.Vector == nil {
+			problems = append(problems, "no witness vector for method "+fmt.Sprint(a))
+			continue
+		}
+		vf := filepath.Join(outDir(), "replay", fmt.Sprintf("C12-pair-%d-%d.json", a, b))
+		vb, _ := json.Marshal(map[string]interface{}{"harness": "HarnessC12Method", "vector": ma.Vector, "params": ma.Params, "pair": []int{a, b}, "finding": f})
+		os.WriteFile(vf, vb, 0o644)
+		res := runRacePair(br.bin, vf, a, b)
+		f.ReplayF = vf
+		f.Repro = res
+		// which known finding (if any) names exactly this pair of methods
+		tag := ""
+		for t, kf := range kfs {
+			if strings.Contains(kf.What, "["+methods[a].Name+"]") && (f.Kind == "discipline" || strings.Contains(kf.What, "["+methods[b].Name+"]") || strings.Contains(kf.What, "[any]")) {
+				tag = t
+			}
+		}
+		switch {
+		case res == "":
+			problems = append(problems, fmt.Sprintf("schedule model for %s (%s) did not reproduce under the race detector; replay=%s", f.Kind, f.Detail, vf))
+		case strings.HasPrefix(res, "inconclusive"):
+			problems = append(problems, fmt.Sprintf("race replay of %s: %s", f.Detail, res))
+		case tag != "":
+			validated++
+			if !kfSeen[tag] {
+				kfSeen[tag] = true
+				kfLines = append(kfLines, fmt.Sprintf("KNOWN-FINDING: property=%s %s [%s; %s; native: %s; replay=%s]", id, kfs[tag].What, tag, f.Detail, res, vf))
+			}
+		default:
+			validated++
+			nViol++
+			keep := filepath.Join(scratchRoot(), "out", "violations")
+			os.MkdirAll(keep, 0o755)
+			dst := filepath.Join(keep, filepath.Base(vf))
+			os.WriteFile(dst, vb, 0o644)
+			vioLines = append(vioLines, fmt.Sprintf("VIOLATION property=%s replay=%s", id, dst))
+			fmt.Printf("violation detail: %s: %s; native: %s\n", f.Kind, f.Detail, res)
+		}
+		rep[k] = f
+	}
+	// a clean pair run as reachability witness of the replay machinery
+	if br.err == nil && len(idxs) > 0 {
+		for _, pr := range [][2]int{{7, 10}, {0, 7}} {
+			if methods[pr[0]] != nil && methods[pr[1]] != nil && methods[pr[0]].Vector != nil {
+				vf := filepath.Join(outDir(), "replay", fmt.Sprintf("C12-pair-%d-%d.json", pr[0], pr[1]))
+				vb, _ := json.Marshal(map[string]interface{}{"harness": "HarnessC12Method", "vector": methods[pr[0]].Vector, "params": methods[pr[0]].Params})
+				os.WriteFile(vf, vb, 0o644)
+				if res := runRacePair(br.bin, vf, pr[0], pr[1]); res == "" {
+					validated++
+				} else if !strings.HasPrefix(res, "inconclusive") {
+					// a race here would have been predicted by the schedule queries
+					found := false
+					for _, k := range repKeys {
+						f := rep[k]
+						if (f.A == pr[0] && f.B == pr[1]) || (f.A == pr[1] && f.B == pr[0]) {
+							found = true
+						}
+					}
+					if !found {
+						problems = append(problems, fmt.Sprintf("native race run of methods %d,%d reports %q but no schedule query was sat: encoding incomplete", pr[0], pr[1], res))
+					}
+				} else {
+					problems = append(problems, "race replay: "+res)
+				}
+			}
+		}
+	} else if br.err != nil {
+		problems = append(problems, br.err.Error())
+	}
+	var msum []map[string]interface{}
+	for _, i := range idxs {
+		m := methods[i]
+		msum = append(msum, map[string]interface{}{"method": m.Name, "paths": m.Paths, "accesses": sortedAccesses(m), "lock_discipline_violations": m.Intra})
+	}
+	var flist []interface{}
+	for _, k := range repKeys {
+		flist = append(flist, rep[k])
+	}
+	var fnames []string
+	for f, c := range funcs {
+		if strings.Contains(f, "utreexo") && !strings.Contains(f, "verif") && !strings.Contains(f, ".Harness") {
+			fnames = append(fnames, fmt.Sprintf("%s (x%d)", strings.Replace(f, upkg, "utreexo", -1), c))
+		}
+	}
+	sort.Strings(fnames)
+	samples = append(samples, map[string]interface{}{"method_summaries": msum})
+	ev := &Evidence{PropertyID: id, Tier: tier, Seed: seed, Level: "model_checking", Assumptions: cfg.Assumptions,
+		Coverage: map[string]interface{}{
+			"states": states, "transitions": trans + queries, "traces_validated_against_impl": validated, "samples": samples,
+			"explanation":               "states = completed symbolic paths of single methods with their lock/access logs; transitions = fork decisions + schedule queries; each schedule query has one Int timestamp per event (acquire, access, release) of two threads",
+			"harnesses":                 reports,
+			"functions_encoded":         fnames,
+			"method_pairs":              pairs,
+			"schedule_queries":          queries,
+			"schedule_solver_s":         solverTime.Seconds(),
+			"findings":                  flist,
+			"bounds":                    cfg.Bounds[tier],
+			"symbolic_dimensions":       cfg.Symbolic,
+			"case_split_dimensions":     cfg.CaseSplit,
+			"stubs":                     cfg.Stubs,
+			"outside_claim":             cfg.Outside,
+			"known_findings_reproduced": kfLines,
+			"problems":                  problems,
+			"exhaustive":                false,
+		},
+		WallS: time.Since(t0).Seconds(), Violations: nViol}
+	writeEvidence(ev)
+	for _, l := range kfLines {
+		fmt.Println(l)
+	}
+	for _, l := range vioLines {
+		fmt.Println(l)
+	}
+	fmt.Printf("property=%s tier=%s methods=%d pairs=%d schedule_queries=%d findings=%d replayed=%d violations=%d wall=%.1fs\n", id, tier, len(idxs), pairs, queries, len(repKeys), validated, nViol, time.Since(t0).Seconds())
+	if nViol > 0 {
+		os.Exit(1)
+	}
+	if len(problems) > 0 {
+		for _, p := range problems {
+			fmt.Println("INCONCLUSIVE:", p)
+		}
+		os.Exit(2)
 	}
 }
